@@ -8,7 +8,11 @@
       DMask p w bits     mask := b.ReadN(); RECV.<bit path> = mask&C != 0   for every bit
       DLen16             n := b.Read16()
       DReset p           RECV.p = RECV.p[:0]
-      DLoop p elem       for i := 0; i < int(n); i++ { RECV.p = append(RECV.p, <elem decoded into a fresh variable>) }
+      DLoop p elem g     for i := 0; i < int(n) [&& !b.isOverrun() if g]; i++ { RECV.p = append(RECV.p, <elem decoded into a fresh variable>) }
+                         When the body runs out before n elements, the frame is rejected either way (overrun);
+                         what has been appended to the (discarded) object by then is [appended_on_overrun]:
+                         guarded: the complete elements plus the one that failed; unguarded: n elements (zero values
+                         for the rest) — an allocation driven by an unchecked count.
       DCountCheck c p    count := b.Read32(); if count != uint32(len(RECV.p)) { b.markOverrun() }
       DDirents c e entry reset
                          RECV.c = b.Read32(); entriesBuf := buffer{data: RECV.payload};
@@ -25,7 +29,7 @@ Inductive dstmt :=
 | DMask (p : string) (w : nat) (bits : list (N * string))
 | DLen16
 | DReset (p : string)
-| DLoop (p : string) (elem : slayout)
+| DLoop (p : string) (elem : slayout) (guarded : bool)
 | DCountCheck (c p : string)
 | DDirents (c e : string) (entry : slayout) (reset : bool).
 
@@ -71,7 +75,7 @@ Definition step (payload : string) (st : dstmt) (d : dstate) : option dstate :=
   | DLen16 =>
       match le_dec 2 bs with Some (m, r) => Some (s, m, r) | None => None end
   | DReset p => Some (set p (ORows []) s, n, bs)
-  | DLoop p elem =>
+  | DLoop p elem _ =>
       match dec_rows elem (N.to_nat n) bs with
       | Some (rows, r) => Some (set p (ORows (rows_of (get p s) ++ rows)) s, n, r)
       | None => None
@@ -104,6 +108,21 @@ Definition decode_into (payload : string) (prog : list dstmt) (old : store) (byt
   | None => None
   end.
 
+(** number of complete rows at the head of [bs], at most c *)
+Fixpoint complete_rows (elem : slayout) (c : nat) (bs : list N) : nat :=
+  match c with
+  | O => O
+  | S c' => match dec_row elem bs with Some (_, r) => S (complete_rows elem c' r) | None => O end
+  end.
+
+(** elements appended by a DLoop asked for n elements (what len(RECV.p) grows by), also when the frame is rejected *)
+Definition appended_by_loop (elem : slayout) (guarded : bool) (n : nat) (bs : list N) : nat :=
+  let k := complete_rows elem n bs in
+  if Nat.eqb k n then n else if guarded then S k else n.
+
+Definition loops_guarded (prog : list dstmt) : bool :=
+  forallb (fun st => match st with DLoop _ _ g => g | _ => true end) prog.
+
 (** ---- which fields a program (re)defines ---- *)
 
 Definition mem (p : string) (l : list string) : bool := existsb (String.eqb p) l.
@@ -118,7 +137,7 @@ Fixpoint covers_from (payload : string) (A : list string) (prog : list dstmt) : 
   | DMask _ _ bits :: r => covers_from payload (map snd bits ++ A) r
   | DLen16 :: r => covers_from payload A r
   | DReset p :: r => covers_from payload (p :: A) r
-  | DLoop p _ :: r => if mem p A then covers_from payload A r else None
+  | DLoop p _ _ :: r => if mem p A then covers_from payload A r else None
   | DCountCheck _ p :: r => if mem p A then covers_from payload A r else None
   | DDirents c e _ reset :: r =>
       if mem payload A && (reset || mem e A) then covers_from payload (e :: c :: A) r else None
@@ -143,11 +162,11 @@ Fixpoint layout_of (prog : list dstmt) : option mlayout :=
       match layout_of r with Some ml => Some {| ml_fixed := (p, KS k) :: ml_fixed ml; ml_pay := ml_pay ml |} | None => None end
   | DMask p w bits :: r =>
       match layout_of r with Some ml => Some {| ml_fixed := (p, KS (KMask w bits)) :: ml_fixed ml; ml_pay := ml_pay ml |} | None => None end
-  | DLen16 :: DReset p :: DLoop q elem :: r =>
+  | DLen16 :: DReset p :: DLoop q elem _ :: r =>
       if String.eqb p q then
         match layout_of r with Some ml => Some {| ml_fixed := (p, KList16 elem) :: ml_fixed ml; ml_pay := ml_pay ml |} | None => None end
       else None
-  | DLen16 :: DLoop p elem :: r =>
+  | DLen16 :: DLoop p elem _ :: r =>
       match layout_of r with Some ml => Some {| ml_fixed := (p, KList16 elem) :: ml_fixed ml; ml_pay := ml_pay ml |} | None => None end
   | [DCountCheck c p] => Some {| ml_fixed := []; ml_pay := PData c p |}
   | [DDirents c e entry _] => Some {| ml_fixed := []; ml_pay := PDirents c e entry |}
